@@ -32,7 +32,7 @@ ANCHORS = ["decaylanguage.modeling.ampgen2goofit:ampgen2goofit", "decaylanguage.
            "decaylanguage.modeling.goofit:GooFitChain.make_amplitude", "decaylanguage.modeling.goofit:GooFitPyChain.make_amplitude"]
 WORKERS = {"quick": 8, "thorough": 16}
 WATCHDOG = {"quick": 900, "thorough": 3300}
-REQUIRED = {"free-coupling": 5, "fixed-coupling": 5, "free-parameter": 5, "fixed-parameter": 5, **{f"lineshape:{k}": 3 for k in A.LS_KINDS}, "spline-array": 3,
+REQUIRED = {"conversion-after-a-failed-conversion-by-one-converter": 5, "free-coupling": 5, "fixed-coupling": 5, "free-parameter": 5, "fixed-parameter": 5, **{f"lineshape:{k}": 3 for k in A.LS_KINDS}, "spline-array": 3,
             "kmatrix-arrays": 3, "entry:returned-string": 10, "entry:printed": 10, "entry:command-line": 2, "shipped-model": 1, "python-executed": 10,
             "cross-language-compared": 10, "file-converted-again-after-another": 5, "converters-with-different-histories": 2}
 ASSUMPTIONS = ["GooFit itself is not installed: the Python output runs against a recording stand-in whose vocabulary (Variable, DecayInfo4, Lineshapes.*, FF, SpinFactor, "
@@ -102,6 +102,7 @@ def models_differ(c, p):
 
 
 _prev: dict = {}
+_nconv = [0]
 
 
 def again_after_another_file(ctx):
@@ -141,6 +142,19 @@ def check_text(ctx, text, wit0, label, shipped=False, cli=False, nontrivial=True
         with open(path, "w", encoding="utf-8", newline="") as fh:
             fh.write(text)
         outs = {}
+        _nconv[0] += 0 if shipped else 1
+        if not shipped and _nconv[0] % 3 == 1:
+            # history: one of the two converters has just failed on another file (cartesian option on, unknown resonance further down)
+            bad = os.path.join(d, "unreadable.txt")
+            with open(bad, "w", encoding="utf-8") as fh:
+                fh.write(A.POISON_TEXT)
+            which = ctx.rng.choice(["cpp", "python"])
+            ctx.hit("conversion-after-a-failed-conversion-by-one-converter")
+            wit0 = {**wit0, "preceded_by_failed_conversion": which, "of_text": A.POISON_TEXT}
+            try:
+                run_entry(bad, which, "returned")
+            except Exception:  # noqa: BLE001, S110   what it raises is not judged
+                pass
         for lang in ("cpp", "python"):
             for entry in (["returned", "printed"] + (["cli"] if cli else [])):
                 wit = {**wit0, "language": lang, "entry": entry}
